@@ -157,9 +157,12 @@ mut('mode-recorded-early', 'File.cpp', [["    /* check */\n    if (is_open())\n 
     ['C13'], ['O3|open|mode-recorded'], 'an ignored second open() changes the mode close() dispatches on')
 mut('loop-exit-on-filesize', 'File.cpp', [["            file->uncompressedFile2CompressedFile();\n\n            /* check for eof */\n            if (!file->m_uncompressedFile.good())", "            file->uncompressedFile2CompressedFile();\n\n            /* check for eof */\n            if (!file->m_uncompressedFile.good() || (file->m_uncompressedFile.tellg() >= file->m_uncompressedFile.fileSize()))"]],
     ['C07'], ['K11|File::compressedFileWriteThread'], 'trailing empty container written or not depending on which worker runs first')
-mut('resync-eof-last-branch', 'ObjectHeaderBase.cpp', [["\t\t\t\t\tif (is.eof()) {\n\t\t\t\t\t\tthrow Exception(\"ObjectHeaderBase::read(): End of File.\");\n\t\t\t\t\t}\n\n", ""],
-                                                        ["\t\t\t\t\t\t/* do not seek as we did not find a single char */\n", "\t\t\t\t\t\t/* do not seek as we did not find a single char */\n\t\t\t\t\t\tif (is.eof()) {\n\t\t\t\t\t\t\tthrow Exception(\"ObjectHeaderBase::read(): End of File.\");\n\t\t\t\t\t\t}\n"]],
+mut('resync-eof-last-branch', 'ObjectHeaderBase.cpp', [["\t\t\t\t\t/* any failure ends the search: a stream that was closed meanwhile fails without reaching its end */\n\t\t\t\t\tif (!is.good()) {\n\t\t\t\t\t\tthrow Exception(\"ObjectHeaderBase::read(): End of File.\");\n\t\t\t\t\t}\n\n", ""],
+                                                        ["\t\t\t\t\t\t/* do not seek as we did not find a single char */\n", "\t\t\t\t\t\t/* do not seek as we did not find a single char */\n\t\t\t\t\t\tif (!is.good()) {\n\t\t\t\t\t\t\tthrow Exception(\"ObjectHeaderBase::read(): End of File.\");\n\t\t\t\t\t\t}\n"]],
     ['C10', 'C09'], ['S1|loop|eof-every-retry'], 'input ending in a partial signature makes the worker spin')
+
+mut('resync-tests-eof-only', 'ObjectHeaderBase.cpp', [["\t\t\t\t\tif (!is.good()) {\n\t\t\t\t\t\tthrow Exception(\"ObjectHeaderBase::read(): End of File.\");", "\t\t\t\t\tif (is.eof()) {\n\t\t\t\t\t\tthrow Exception(\"ObjectHeaderBase::read(): End of File.\");"]],
+    ['C06', 'C08', 'C10', 'C09'], ['S1|loop|eof-every-retry'], 'the defect fixed in 4842e88: a stream closed by close() fails without eof and the search spins')
 
 mut('close-overwrites-caller-field', 'File.cpp', [["        fileStatistics.objectCount = currentObjectCount;", "        fileStatistics.objectCount = currentObjectCount;\n        fileStatistics.compressionLevel = static_cast<uint8_t>(compressionLevel);"]],
     ['C05'], ['H3|fileStatistics'], 'a header field supplied by the caller is replaced at close()')
